@@ -204,13 +204,19 @@ class TokenParser(Parser):
 
         fields = []
         tokens.consume()
-        while len(tokens):
-            if tokens.next == self.TOK.BLOCK and tokens.next.value == "}":
-                tokens.consume()
-                break
+        try:
+            while len(tokens):
+                if tokens.next == self.TOK.BLOCK and tokens.next.value == "}":
+                    tokens.consume()
+                    break
 
-            field = self._parse_field(tokens, fields)
-            fields.append(field)
+                field = self._parse_field(tokens, fields)
+                fields.append(field)
+        except Exception:
+            if registered and self.cstruct.typedefs.get(ident.value) is st:
+                # The definition can't be completed, don't leave the empty structure behind under its name
+                del self.cstruct.typedefs[ident.value]
+            raise
 
         if register:
             names.extend(self._names(tokens))
